@@ -495,6 +495,8 @@ def cli_corpus():
         c(mode="file", fdur=800, conc=2, bodyms=1, maxit=4, fstages="u:150:2;c:300:3/50ms", fshared=1),
         c(mode="constant", dur=hx("650ms"), conc=20, rate=hx("7/s"), dist=hx("regular"), exact=1, timing=1),       # the k-th tick requests the k-th value of the profile
         c(mode="constant", dur=hx("350ms"), conc=20, rate=hx("7/s"), dist=hx("regular"), exact=1),
+        c(mode="constant", dur=hx("650ms"), conc=20, rate=hx("7/s"), dist=hx("regular"), exact=1, timing=1, igndrop=1),   # C09k: no evaluation outside the cadence, whatever the flags
+        c(mode="constant", dur=hx("450ms"), conc=30, rate=hx("13/500ms"), dist=hx("regular"), exact=1, igndrop=1),
         c(mode="constant", dur=hx("450ms"), conc=30, rate=hx("13/500ms"), dist=hx("regular"), exact=1),
         c(mode="constant", dur=hx("450ms"), conc=30, rate=hx("4/100ms"), dist=none, exact=1, leakcheck=1),
         c(mode="users", dur=d200, conc=3, bodyms=5, leakcheck=1),                                                   # nothing of the command remains after it returned
